@@ -73,7 +73,7 @@ func (auth *Authenticator) AuthenticateCookie(rq *http.Request, response http.Re
 	if err != nil {
 		return nil, err
 	}
-	if user == nil || session.SessionUUID != user.GetSessionUUID() {
+	if user == nil || session.SessionUUID != user.GetSessionUUID() || user.Disabled() {
 		base.InfofCtx(auth.LogCtx, base.KeyAuth, "Session no longer valid for user %s", base.UD(session.Username))
 		return nil, base.HTTPErrorf(http.StatusUnauthorized, "Session no longer valid for user")
 	}
@@ -172,7 +172,7 @@ func (auth *Authenticator) GetSession(sessionID string) (*LoginSession, User, er
 	if user == nil {
 		return nil, nil, base.ErrNotFound
 	}
-	if session.SessionUUID != user.GetSessionUUID() {
+	if session.SessionUUID != user.GetSessionUUID() || user.Disabled() {
 		return nil, nil, base.ErrNotFound
 	}
 
